@@ -753,6 +753,18 @@ def audit_cases():
         c = bytearray(base)
         c[pos] = 0
         D(D2U, bytes(c), 1024, [f"sniff:NUL@{pos}"])
+    # a TEXT whose first CR comes late: LF-only preamble of 511 / 512 / 513 / 2000 bytes (a long CSV
+    # header, a comment block), then CRLF lines - the first CR is outside / at the edge of the window
+    for pre in (511, 512, 513, 2000):
+        body = (b"0123456789abcde\n" * (pre // 16 + 1))[:pre - 1] + b"\n" + b"col1,col2\r\nv1,v2\r\n"
+        dd = [f"sniff:first-CR@{pre}(LF preamble then CRLF)"]
+        D(D2U, body, 4096, dd + ["one read"])
+        D(D2U, body, None, dd + ["one read"])
+        D(D2U, body, 512, dd + ["several reads"])
+        D(D2U, body, 4096, dd + ["fobj:file"], fobj="file")
+        R(D2U, "get_hash_stream", body, [4096, "q", 512], dd + ["one read"])
+        R(D2U, "Dos2UnixHashStreamFile", body, [1024, "q", 1024, "q", 1024], dd + ["several reads"])
+        hfiles.append({"kind": "hashfile", "name": D2U, "style": "audit", "content": hx(body), "dims": dd + ["entry:hash_file"]})
     c = bytearray(b"a" * 600)
     c[511:513] = b"\r\n"
     D(D2U, bytes(c), 1024, ["crlf-straddles-window(one read)"])
@@ -923,7 +935,8 @@ def run_entrypoints(ctx, dims):
             return f"raised {type(exc).__name__}: {exc}"
 
     samples = {"crlf-text": b"line one\r\nline two\r\n" * 3, "binary": bytes(range(256)) + b"\r\n", "empty": b"",
-               "exactly-512": (b"y" * 510) + b"\r\n"}
+               "exactly-512": (b"y" * 510) + b"\r\n",
+               "lf-preamble-then-crlf": (b"0123456789abcde\n" * 40) + b"col1,col2\r\nv1,v2\r\n"}
     # get_hasher, every pool name (as get_hash_stream / HashStreamFile pass it: lower-cased)
     for alg in ALGS:
         for cname, data in (("binary", samples["binary"]),):
